@@ -127,6 +127,17 @@ def check(ctx):
                "", " ", "// only a comment", "/* unterminated", "\"unterminated", "`unterminated", "let a = 1X;", "res / on get -> <>;\né",
                "let a = { € 'price num };", "let 😉 = num;"]
         tx += [texts.text_of_kinds(s) for s in texts.seqs_upto(texts.REDUCED[:10], 3)]
+    if not ctx.replay:
+        ok, out = core.ensure_runner()
+        if not ok:
+            ctx.broken.append("runner build failed: " + out[-300:])
+        else:
+            from . import pegtie
+            small = [{"text": t, "uncached": False} for t in tx if len(t) < 600][:: 3]
+            bad = pegtie.compare(small)
+            for what, rq, i, m in bad[:10]:
+                ctx.broken.append("L2 disagreement (%s): %s impl=[%s] model=[%s]" % (what, json.dumps(rq)[:200], i, m))
+            ctx.count("peg_tie_cases", len(small))
     lines = [json.dumps({"text": t}) for t in tx]
     outs = core.run_stateless(core.IMPL, "syntax", lines)
     seen = set()
